@@ -126,6 +126,24 @@ theorem stride_eq (l r) (cfg : Cfg) (s : St) : run (.stride l r) cfg s = expect 
 theorem setCtor_eq (n o) (cfg : Cfg) (s : St) : run (.setCtor n o) cfg s = expect (.setCtor n o) cfg s := by c05_open <;> c05_close
 
 
+/-- the storage base matches the capacity (zero storage iff Capacity == 0) and the class invariant holds -/
+def StorOk (st : Stor) (s : St) : Prop := s.Inv ∧ (st = .zero ↔ s.cap = 0)
+
+theorem svPush_eq (st v) (cfg : Cfg) (s : St) (h : StorOk st s) (hc : s.cap < U64) : run (.svPush st v) cfg s = expect (.svPush st v) cfg s := by
+  obtain ⟨hi, hz⟩ := h
+  have hm : s.elems.length % U64 = s.elems.length := Nat.mod_eq_of_lt (by simp only [St.Inv] at hi; omega)
+  cases st <;> simp at hz <;> c05_open <;> (try simp only [hm]) <;> c05_close
+theorem svEmplaceBack_eq (st v) (cfg : Cfg) (s : St) (h : StorOk st s) (hc : s.cap < U64) : run (.svEmplaceBack st v) cfg s = expect (.svEmplaceBack st v) cfg s := by
+  obtain ⟨hi, hz⟩ := h
+  have hm : s.elems.length % U64 = s.elems.length := Nat.mod_eq_of_lt (by simp only [St.Inv] at hi; omega)
+  cases st <;> simp at hz <;> c05_open <;> (try simp only [hm]) <;> c05_close
+theorem svPop_eq (st) (cfg : Cfg) (s : St) (h : StorOk st s) : run (.svPop st) cfg s = expect (.svPop st) cfg s := by
+  obtain ⟨hi, hz⟩ := h
+  cases st <;> simp at hz <;> c05_open <;> c05_close
+theorem svClear_eq (st) (cfg : Cfg) (s : St) (h : StorOk st s) : run (.svClear st) cfg s = expect (.svClear st) cfg s := by
+  obtain ⟨hi, hz⟩ := h
+  cases st <;> simp at hz <;> c05_open <;> c05_close
+
 theorem firstViolated_none (l : List (Key × Bool)) : firstViolated l = none ↔ l.all (·.2) = true := by
   induction l with
   | nil => simp [firstViolated]
